@@ -311,7 +311,22 @@ def _w_inline_scalar(m):
     return [("inline_assign", "N[('body', 1)]", lambda: S.inline_assign(p, p.body()[1]))]
 
 
+def _w_recompute(m):
+    import exo.stdlib.scheduling as S
+    p = m.foo
+    return [("divide_with_recompute", "N[('body', 0)]", lambda: S.divide_with_recompute(p, p.body()[0], 2, 1, ["a", "b"]))]
+
+
 WITNESSES = [
+    ("divide_with_recompute_loop_carried", """
+@proc
+def foo(y: R[2], u: R[6]):
+    for j in seq(0, 6):
+        if j <= 2:
+            y[1] = u[3] + u[4]
+        else:
+            u[j] = 1.0
+""", _w_recompute),
     ("inline_assign_scalar_passed_to_call", """
 @proc
 def sub(s: R, y: R[2]):
